@@ -1,10 +1,10 @@
 #!/bin/sh
-# tools/reeval_seeded.sh [jobs]: re-evaluate EVERY kept seeded change (seeded/Cxx-k) on scratch worktrees with the current checks
+# tools/reeval_seeded.sh [jobs] [Cxx]: re-evaluate EVERY kept seeded change (or only those of property Cxx; REEVAL_OUT=dir for a private output dir) (seeded/Cxx-k) on scratch worktrees with the current checks
 # and every kept harmless refactoring (seeded/harmless/*); prints one line per change. Results in /tmp/mut_out/reeval/.
 cd "$(dirname "$0")/.."
-jobs=${1:-6}
-out=/tmp/mut_out/reeval; rm -rf $out; mkdir -p $out
-ls -d seeded/C*-* | while read d; do
+jobs=${1:-6}; only=${2:-C}
+out=${REEVAL_OUT:-/tmp/mut_out/reeval}; rm -rf $out; mkdir -p $out
+ls -d seeded/$only*-* | while read d; do
   id=$(basename $d); p=${id%-*}; k=${id#*-}
   mkdir -p $out/$id; cp $d/patch.diff $out/$id/mutation_$k.diff; cp $d/demo.py $out/$id/demo_$k.py
   checks=$(python3 -c "import json;m=json.load(open('$d/meta.json'));print(','.join(m.get('caught_by') or ['$p']))")
